@@ -86,7 +86,7 @@ func (g *Gen) wide() string { return g.randCase(g.pick("inherit", "initial", "un
 
 func (g *Gen) calcExpr() string {
 	a, b := g.length(), g.length()
-	if g.known && g.chance(1, 8) { // N13
+	if g.chance(1, 10) { // (N13 = K92 repaired: newer math functions with zero arguments are part of the default stream)
 		return g.pick("hypot(0px, 3px)", "abs(0px)", "round(0.0em, 1px)", "mod(0px, 3px)", "sign(0px)")
 	}
 	switch g.r.Intn(6) {
